@@ -1,5 +1,5 @@
-/* C13.meta_append.propagates (bounded: append size <= 20000 bytes = two full
- * metadata blocks + tail; sqfs_meta_writer_flush replaced by its contract via
+/* C13.meta_append.propagates (bounded: append size <= 9000 bytes = more than
+ * one full metadata block, up to two flushes; sqfs_meta_writer_flush replaced by its contract via
  * goto-instrument --replace-calls, the real one is meta_flush.c):
  * sqfs_meta_writer_append() (meta_writer.c), writer at any fill level.
  *   C13.meta_append.propagates   a failing flush => ret != 0 (its code)
